@@ -11,3 +11,29 @@ NA["C06"] = ("whole-program derivative of the sampled estimator (30-iteration SC
              "transcendentals): no bounded SMT encoding within reach; with those abstracted it degenerates to JAX's own AD "
              "correctness. Sub-claims decided elsewhere: _eigh JVP under C18, primal = plain sampler at zero coupling under C12")
 NA["C16"] = ("subject is pyscf's compiled integral/SCF/CC/FCI kernels and HDF5/npz files on disk; none is encodable for a solver")
+
+_WF_NOTE = ("Trusted: z3 5.1.0; JAX tracing = execution (A6); jnp.linalg.det/inv replaced by contract stubs (A2); exact real arithmetic for "
+            "float64, rounding outside the claim (A1), every counterexample replayed on the real jitted code; front-end polynomial normal "
+            "form (vf/poly.py, self-tested against z3). Bounded shapes only (norb<=4).")
+CHECKS["C01"] = dict(level="model_checking", design_ref="DESIGN.md 5/C01",
+    technique="symbolic execution of the traced jaxpr + z3 (nlsat) polynomial identity vs Fock-space oracle, bounded shapes",
+    text="Every overlap routine of every trial kind is traced from /repo (jax.make_jaxpr) and executed symbolically over exact rational "
+         "functions; the obligation code_overlap != <psi_T|phi> (explicit second quantisation) is unsat for ALL complex walkers, trial "
+         "parameters and CI coefficients at each bounded shape; same for restricted==unrestricted entry, batched order for every divisor "
+         "n_batch, multi-Slater tables produced by the real get_excitations for enumerated lists/references, and 1-RDMs. Bounded model "
+         "checking is the right level: the property is an algebraic identity per shape, the solver covers the whole input space of the shape.",
+    note=_WF_NOTE)
+CHECKS["C02"] = dict(level="model_checking", design_ref="DESIGN.md 5/C02",
+    technique="symbolic execution of the traced jaxpr + z3 polynomial identity E_L*<psi|phi> = <psi|H|phi> vs Fock-space oracle, bounded shapes",
+    text="build_measurement_intermediates + _calc_energy(_restricted) of each trial kind traced and executed symbolically (all of h0, h1 "
+         "per spin, Cholesky matrices, walker, trial/CI parameters symbolic); obligation E_code*ovlp_code != <psi_T|H|phi> with H applied "
+         "operator by operator is unsat at each bounded shape; batched calc_energy order for every n_batch.",
+    note=_WF_NOTE)
+CHECKS["C03"] = dict(level="model_checking", design_ref="DESIGN.md 5/C03",
+    technique="symbolic execution of the traced jaxpr (incl. JAX's transposed vjp program) + z3 polynomial identity vs Fock-space oracle",
+    text="_calc_force_bias(_restricted) of every kind - hand-coded Green's function contractions and the reverse-mode (vjp) derivative of the "
+         "overlap - traced and executed symbolically; obligation fb_g*ovlp != <psi_T|L_g|phi> unsat for every g at each bounded shape, "
+         "restricted and unrestricted entries, batched order for every n_batch.",
+    note=_WF_NOTE)
+for k in ("C01","C02","C03"): NA.pop(k, None)
+ENGINES[0]["serves_properties"] = sorted(CHECKS)
